@@ -86,6 +86,7 @@ def FateAllowed : Fate → Prop
   | .svcChange => True       -- dropped by the client's own SERVICE_REQ
   | .closed => True          -- the client disconnected (or its socket failed)
   | .flushed => True         -- channel-change flush of the whole queue
+  | .grantLost => True       -- (repaired update_services only) the device grants the client nothing any more
   | .overflow n => defaultBufferCount ≤ n   -- overflow: only with at least DEFAULT_BUFFER_COUNT frames queued and unsent
 
 theorem fateOk_allowed {f : Fate} (h : fateOk f) : FateAllowed f := by
@@ -198,14 +199,14 @@ example :
 
 /-- One-run form, all histories: whatever the OTHER clients do (stall, fill the queue, change services, disconnect),
 a frame captured for client `c` leaves `c`'s part of the queue only by being sent to `c`, by `c`'s own service change
-or disconnect, by a flush of the whole queue, or by an overflow that finds `c` ITSELF at least `DEFAULT_BUFFER_COUNT`
+or disconnect, by a flush of the whole queue (or, repaired code only, because the device no longer grants `c` anything), or by an overflow that finds `c` ITSELF at least `DEFAULT_BUFFER_COUNT`
 frames behind (its cursor on the oldest buffer of a full queue); and what is still queued for `c` is exactly the rest,
 in order.  (With the code before 5eee39a this is false: `stalled_client_isolated_counterexample`.) -/
 theorem stalled_client_isolated_full (cfg : Cfg) (ops : List Op) (s : State) (h : run cfg init ops = .ok s) :
     ∀ c ∈ s.clients,
       c.expected = pendingOf s.dev.q c.backlog ++ c.done.map (·.1) ∧
       ∀ fr fate, (fr, fate) ∈ c.done →
-        fate = .sent ∨ fate = .svcChange ∨ fate = .closed ∨ fate = .flushed ∨
+        fate = .sent ∨ fate = .svcChange ∨ fate = .closed ∨ fate = .flushed ∨ fate = .grantLost ∨
         ∃ n, fate = .overflow n ∧ defaultBufferCount ≤ n := by
   intro c hcm
   obtain ⟨h1, _, _, h4⟩ := each_frame_once_in_order_full cfg ops s h c hcm
@@ -217,7 +218,8 @@ theorem stalled_client_isolated_full (cfg : Cfg) (ops : List Op) (s : State) (h 
   | svcChange => exact Or.inr (Or.inl rfl)
   | closed => exact Or.inr (Or.inr (Or.inl rfl))
   | flushed => exact Or.inr (Or.inr (Or.inr (Or.inl rfl)))
-  | overflow n => exact Or.inr (Or.inr (Or.inr (Or.inr ⟨n, rfl, this⟩)))
+  | grantLost => exact Or.inr (Or.inr (Or.inr (Or.inr (Or.inl rfl))))
+  | overflow n => exact Or.inr (Or.inr (Or.inr (Or.inr (Or.inr ⟨n, rfl, this⟩))))
 
 /-- Two-run form: take ANY two histories (any devices, any behaviour of the other clients - stalled or not) and a
 client in each for which the same frames were captured while it was subscribed; if neither lost a frame (every frame
